@@ -128,7 +128,7 @@ func H_C13_Base64RT() {
 
 // H_C13_Base32Decode: arbitrary 8-character strings (CR/LF excluded): accepted => every character is in the I2P alphabet or is legal trailing padding, and re-encoding gives the string back when unpadded.
 //
-//verif:props C13
+//verif:props C13 C04
 //verif:witness accepted rejected
 func H_C13_Base32Decode() {
 	s := nd.String(8)
@@ -153,7 +153,7 @@ func H_C13_Base32Decode() {
 
 // H_C13_Base64Decode: arbitrary 4- and 8-character strings (CR/LF excluded): accepted => alphabet or legal padding only.
 //
-//verif:props C13
+//verif:props C13 C04
 //verif:witness accepted rejected
 func H_C13_Base64Decode() {
 	n := []int{4, 8}[nd.IntRange(0, 1)]
